@@ -15,8 +15,8 @@ for key in $KEYS; do
   if ! ( cd $WT && git apply /verif/seeded/$key/patch.diff ); then echo "$key $ID exit=patch-does-not-apply"; git -C /repo worktree remove --force $WT; continue; fi
   out=$(VERIF_REPO=$WT ./run $ID quick 2>&1); rc=$?
   echo "$key $ID exit=$rc $(echo "$out" | grep -m1 -o 'VIOLATION property=[A-Z0-9]* replay=[^ ]*' | sed 's#replay=.*/replays/#replay=#')"
-  alt=$(echo "$out" | grep -m1 -o '/verif/build/alt-[0-9a-f]*' )
+  alt=/verif/build/alt-$(printf %s "$WT" | sha1sum | cut -c1-10)
   git -C /repo worktree remove --force $WT
-  [ -n "$alt" ] && rm -rf "$alt"
+  rm -rf "$alt"
 done
 git -C /repo worktree prune
